@@ -258,6 +258,20 @@ func normalise(x any) any {
 				return M{"go": m["go"], "skipped": true}
 			}
 		}
+		// a pointer to a nil slice / map / nil pointer is written null and read back as a nil pointer (encoding/json)
+		if m["k"] == "ptr" && m["nil"] == false {
+			if inner, ok := m["v"].(M); ok {
+				switch inner["k"] {
+				case "slice", "map", "bytes", "ptr":
+					if inner["nil"] == true {
+						return M{"k": "ptr", "nil": true}
+					}
+				}
+			}
+		}
+		if m["k"] == "ptr" && m["nil"] == true {
+			return M{"k": "ptr", "nil": true}
+		}
 		out := M{}
 		for k, v := range m {
 			if k == "nil" && (m["k"] == "slice" || m["k"] == "map" || m["k"] == "bytes") {
